@@ -299,6 +299,20 @@ pub fn run(prop: &str, tier: &str, replay: Option<&str>) -> i32 {
         rep.add(sec);
     }
     {
+        // object identifiers as attribute type, otherName type and directoryName constraint at once
+        let oids = crate::corpus::first_octet_oids();
+        let sec = Section::new("sweep/object identifiers", &format!("{} object identifiers (every first-octet value; second arcs of joint-iso-itu-t up to 300 and at the length boundaries; later arcs at the base-128 boundaries) as a subject attribute type, an otherName type and inside a directoryName name constraint: generated, imported, re-issued, imported again", oids.len()));
+        run::sweep_cases(&sec, &oids, &|o| format!("oid {:?}", o), &|o| {
+            let mut st = CertState::default();
+            st.dn = DnSpec(vec![(DnTypeSpec::Custom(o.clone()), StrKind::Utf8, "v".into()), (DnTypeSpec::Cn, StrKind::Utf8, "oid sweep".into())]);
+            st.sans = vec![SanSpec::Other(o.clone(), "x".into()), SanSpec::Dns("after.example".into())];
+            st.nc = Some(NcSpec { permitted: vec![SubtreeSpec::Dir(DnSpec(vec![(DnTypeSpec::Custom(o.clone()), StrKind::Utf8, "w".into())]))], excluded: vec![] });
+            st.is_ca = IsCaSpec::Unconstrained;
+            judge(&known, &st, &ctx)
+        });
+        rep.add(sec);
+    }
+    {
         // PEM texts with several blocks: whatever from_ca_cert_pem accepts is the FIRST block labelled CERTIFICATE,
         // i.e. equals the DER import of that block (a bundle is "issuing CA first"; picking another block would make
         // everything issued later name the wrong issuer)
